@@ -22,3 +22,7 @@ add("C13", "symbolic execution of ConcentrationAnalysis (symx) with the stages a
     "Bounded symbolic model checking: pixels are symbolic reals, reduction/balancing/restoration/model are uninterpreted functions (restoration non-local), so any swapped, skipped, duplicated or mis-fed stage changes the result term; all diff options, stage-presence patterns, both orders, 0..3 extra baselines.",
     "Shapes 2x2 / 1x2; integer dtypes with concrete values (promotion by skimage trusted); compare_images stubbed as |a-b|.",
     "DESIGN.md §5 C13")
+add("C03", "symbolic execution of the Geometry classes' integrate/normalize and arithmetics.weight (symx): data, sizes, weights symbolic; the call history enters as a symbolic cache pre-state (one inductive step) and as explicit call sequences; z3 (QF_NRA) unsat queries",
+    "Bounded symbolic model checking: weighted-sum, linearity, resolution independence (integer factors incl. 3 and 6), normalisation and history independence are decided for all real data/sizes/weights; the inductive cache-state step covers call sequences of any length for scalar volumes.",
+    "cv2.resize(INTER_AREA) is a contract stub (exact area resampling), validated against real cv2 on constants each run; native shapes bounded (4 / 2x4 / 2x2x2); exact reals.",
+    "DESIGN.md §5 C03")
